@@ -77,6 +77,22 @@ class PlainCV:
         self.y = 2
 
 
+class SlotBase:
+    __slots__ = ("a",)
+
+    def __init__(self):
+        self.a = 1
+
+
+class SlotRedeclared(SlotBase):
+    """a subclass that declares a slot of its base again (legal, if wasteful): still one field"""
+    __slots__ = ("a", "b")
+
+    def __init__(self):
+        super().__init__()
+        self.b = 2
+
+
 class BareCV:
     """class constants annotated with the bare, unsubscripted ClassVar form (legal Python), next to an instance field"""
     kind: typing.ClassVar = "k"
@@ -157,6 +173,7 @@ def cases():
     out.append(("slots-only hierarchy", lambda: SlotB(), [("a", 1), ("b", 2)], [1, 2]))
     out.append(("__slots__ given as one string", lambda: StrSlot(), [("value", 5)], [5]))
     out.append(("plain annotated class with a ClassVar", lambda: PlainCV(), [("y", 2)], [2]))
+    out.append(("slot of the base declared again in the subclass", lambda: SlotRedeclared(), [("a", 1), ("b", 2)], [1, 2]))
     out.append(("plain annotated class with a bare ClassVar", lambda: BareCV(), [("y", 2)], [2]))
     out.append(("class whose only annotations are bare ClassVars", lambda: OnlyBareCV(), [("x", "x")], ["x"]))
     out.append(("vars-only class, constructor parameter named differently", lambda: VarsCtor(), [("y", 1)], [1]))
